@@ -598,10 +598,17 @@ def build_task(L, cfg, events):
         for a in sp.agents:
             a.ub = np.array(new_ub, copy=True)
         sp.check_limits()
-    if cfg.get('reassign_bounds'):
+    if cfg.get('reassign_bounds') == 'column':
+        # … as column arrays of shape (n_variables, 1), the shape positions have (`space.lb = space.best_agent.position - 0.5`)
+        sp.lb = np.asarray(list(cfg['lb']), dtype=float).reshape(-1, 1)
+        sp.ub = np.asarray(list(cfg['ub']), dtype=float).reshape(-1, 1)
+    elif cfg.get('reassign_bounds'):
         # the bounds re-declared (with the same values) through the space's public setters after construction
         sp.lb = np.asarray(list(cfg['lb']))
         sp.ub = np.asarray(list(cfg['ub']))
+    if cfg.get('reset_best'):
+        # the incumbent reset by the user to a default agent (one variable, one dimension, fitness FLOAT_MAX) before the task
+        sp.best_agent = L['Agent']()
     if cfg.get('int_start') and cfg['space'] != 'tree':
         # a deterministic lattice start: every agent's position assigned (through the public setter) as an integer-typed
         # array of whole numbers inside the box
